@@ -493,7 +493,9 @@ fn table_cases(thorough: bool) -> Vec<TableCase> {
         for v in &types {
             if t.name == "stretch" || v.name == "stretch" {
                 // stretch values cannot be written as initializers in a meaningful way; only same-type
-                if !(t.name == "stretch" && v.name == "stretch") {
+                // (and the two timing kinds against each other)
+                let timing = |n: &str| n == "stretch" || n == "duration";
+                if !(timing(t.name) && timing(v.name)) {
                     continue;
                 }
             }
@@ -1174,6 +1176,17 @@ pub fn run_c09(ctx: &RunCtx) {
         ("gate-parameter-as-width", "gate g(n) q { int[n] v; }".into()),
         ("call", "def f() -> int { return 1; } int[f()] v;".into()),
     ];
+    // negative constants of every integer type, in every kind of designator
+    let mut bad = bad;
+    let neg_names: Vec<String> = ["int", "int[8]", "int[32]", "int[64]", "int[128]", "uint[16]", "uint[128]"]
+        .iter()
+        .flat_map(|cty| ["-1", "-4", "-8", "- 16"].iter().map(move |val| format!("const {cty} n = {val};")))
+        .collect();
+    for pre in &neg_names {
+        for use_ in ["int[n] v;", "uint[n] v;", "float[n] v;", "angle[n] v;", "bit[n] v;", "qubit[n] v;", "def f(int[n] v) { }", "def v() -> int[n] { return 1; }", "complex[float[n]] v;"] {
+            bad.push(("negative-const-matrix", format!("{pre} {use_}")));
+        }
+    }
     {
         let mut st = Stats::default();
         for (name, text) in &bad {
@@ -1190,6 +1203,8 @@ pub fn run_c09(ctx: &RunCtx) {
                     if let Some(s) = res.symbol_table().verif_symbols().iter().rev().find(|s| s.name() == "v") {
                         if let Some(w) = s.symbol_type().width() {
                             rep.fail(format!("C09:invalid-designator-replaced-by-number:{name}"), json!({"input": {"source": text}, "actual": w}));
+                        } else if matches!(s.symbol_type(), Type::BitArray(..) | Type::QubitArray(..)) {
+                            rep.fail(format!("C09:invalid-designator-replaced-by-number:{name}"), json!({"input": {"source": text}, "actual": format!("{:?}", s.symbol_type())}));
                         }
                     }
                 } else {
